@@ -164,6 +164,30 @@ theorem fresh_header_ok (fid : Str) (hu : uuidAccepts fid = true) :
   simp only [checkHeader, freshDisk, gate_ow]
   cases cmpTuple idThresholdCmp libVersion idThreshold <;> simp [hu']
 
+/-- **The fresh header is what `_create_header` writes** on the just created (attribute-less) file:
+the `_set_<x>` calls regenerated from the source produce the NIX tag, the library's version and the
+drawn id — the header `openFile` / `openPath` give a created file -/
+theorem C11_create_header_fresh (fid : Str) :
+    createHeader ⟨none, none, none⟩ fid = .ok (freshDisk fid).header
+    ∧ (freshDisk fid).header = ⟨some fileFormat, some libVersion, some fid⟩ := ⟨rfl, rfl⟩
+
+/-- `_create_header` never replaces an existing file id (format upgrades rely on it) and always
+writes the NIX tag -/
+theorem C11_create_header_keeps_id (h : Header) (fid : Str) (h' : Header)
+    (hid : truthyStr h.id = true) (hc : createHeader h fid = .ok h') :
+    h'.id = h.id ∧ h'.fmt = some fileFormat := by
+  obtain ⟨f, v, i⟩ := h
+  simp only [createHeader, createHeaderSteps, createHeaderFrom, headerStep] at hc
+  simp only at hid
+  match v, hc with
+  | none, hc => simp [hid] at hc; subst hc; exact ⟨rfl, rfl⟩
+  | some [], hc => simp at hc
+  | some [x], hc =>
+    by_cases hx : x = 0
+    · simp [hid, hx] at hc; subst hc; exact ⟨rfl, rfl⟩
+    · simp [hid, hx] at hc; subst hc; exact ⟨rfl, rfl⟩
+  | some (_ :: _ :: _), hc => simp at hc
+
 /-- **Overwrite.** Whatever the path held (nothing, a NIX file of any version, any other HDF5
 file), opening with overwrite succeeds and leaves an empty file with a fresh header; the session
 is writable.  (`fid` is the `uuid4()` drawn; `uuid4` yields UUIDs.) -/
@@ -482,6 +506,131 @@ theorem C11_readonly_path (n : Node) (fid : Str) :
   | blob t e =>
     obtain ⟨r', hr'⟩ := C11_unopenable_kept modeReadOnly ro_ne_ow (.blob t e) trivial fid
     rw [hr']; exact ⟨rfl, fun s hs => by simp at hs⟩
+
+/-! ## consequences across modes -/
+
+/-- **Whatever may be written may be read**: a header accepted for read-write is accepted read-only —
+for every header (any version vector, tag, id) -/
+theorem C11_write_implies_read (h : Header) (hw : checkHeader modeReadWrite h = .ok ()) :
+    checkHeader modeReadOnly h = .ok () := by
+  obtain ⟨fmt, ver, id⟩ := h
+  by_cases hf : fmt = some fileFormat
+  · cases ver with
+    | none => simp [checkHeader, hf, gate_rw, runGate, canWrite] at hw
+    | some v =>
+      by_cases hl : v.length = 3
+      · match v, hl with
+        | [x, y, z], _ =>
+          have h1 := (C11_check_header x y z fmt id).1
+          have h2 := (C11_check_header x y z fmt id).2.1
+          rw [h2] at hw
+          rw [h1]
+          by_cases hs : SameVersion x y z
+          · have hr : Readable x y := ⟨hs.1, by rw [hs.2.1]; exact Int.le_refl _⟩
+            by_cases hi : IdOk x y z id
+            · simp [hf, hr, hi]
+            · simp [hf, hs, hi] at hw
+          · simp [hf, hs] at hw
+      · simp [checkHeader, hf, gate_rw, runGate, canWrite_badlen _ _ v hl] at hw
+  · simp [checkHeader, hf] at hw
+
+/-- **A file the library created is a file the library accepts**: what create / overwrite leaves
+behind opens read-only and read-write, unchanged (the fresh header carries the library's version,
+the NIX tag and — from 1.2.0 on required — a valid id) -/
+theorem C11_fresh_reopens (fid fid' : Str) (hu : uuidAccepts fid = true) :
+    openFile modeReadOnly (some (freshFile fid)) fid' = (some (freshFile fid), .ok ⟨modeReadOnly, .rdonly⟩)
+    ∧ openFile modeReadWrite (some (freshFile fid)) fid' = (some (freshFile fid), .ok ⟨modeReadWrite, .rdwr⟩) := by
+  have hd := C11_decision libX libY libZ (some fileFormat) (some fid) (freshFile fid) fid' rfl ⟨rfl, rfl, rfl, rfl⟩
+  have hr : Readable libX libY := ⟨rfl, Int.le_refl _⟩
+  have hs : SameVersion libX libY libZ := ⟨rfl, rfl, rfl⟩
+  have hi : IdOk libX libY libZ (some fid) := fun _ => hu
+  constructor
+  · rw [hd.1]; simp [hr, hi]
+  · rw [hd.2]; simp [hs, hi]
+
+/-- **After a successful read-write open the file opens read-only**, with exactly the state the
+read-write open left (a read-write open completes the file; a read-only open never has to write) -/
+theorem C11_rw_then_ro (d d' : Disk) (fid fid' : Str) (s : Session)
+    (h : openFile modeReadWrite (some d) fid = (some d', .ok s)) :
+    openFile modeReadOnly (some d') fid' = (some d', .ok ⟨modeReadOnly, .rdonly⟩) := by
+  simp only [openFile, rw_ne_ow, if_false, mapFileMode_rw, checkAndFinish] at h
+  cases hch : checkHeader modeReadWrite d.header with
+  | error e => simp [hch] at h
+  | ok u =>
+    simp only [hch, finishOpen] at h
+    simp at h
+    obtain ⟨hd, _⟩ := h
+    subst hd
+    have hro := C11_write_implies_read d.header hch
+    simp [openFile, ro_ne_ow, mapFileMode_ro, checkAndFinish, hro, finishOpen]
+
+/-- **The default mode decides like read-write**: `File.open(path)` on an existing complete file is
+the read-write row of the table, for every version triple, tag and id -/
+theorem C11_default_decision (x y z : Int) (fmt id : Option Str) (d : Disk) (fid : Str)
+    (hh : d.header = ⟨fmt, some [x, y, z], id⟩) (hc : Disk.complete d) :
+    openDefault (.hdf d) fid
+      = (.hdf d, if fmt ≠ some fileFormat then .error (.err .invalidFile)
+                 else if ¬ SameVersion x y z then .error (.err .runtimeError)
+                 else if ¬ IdOk x y z id then .error (.err .runtimeError)
+                 else .ok ⟨modeReadWrite, .rdwr⟩) := by
+  have e := C11_init_shape modeReadWrite (some d) fid
+  simp only [Node.ofDisk] at e
+  rw [(C11_default_mode (.hdf d) fid).2.2, e, (C11_decision x y z fmt id d fid hh hc).2]
+
+/-- **When the state of a path changes at all.** An open changes what a path holds only if it is an
+Overwrite, or the path was missing (and the mode is not read-only), or an HDF5 file accepted for
+writing lacked one of the top-level groups / timestamps — for every path condition and mode string. -/
+theorem C11_changes_only (mode : Str) (n : Node) (fid : Str) (hc : (openPath mode n fid).1 ≠ n) :
+    mode = modeOverwrite
+    ∨ (n = .missing ∧ mode ≠ modeReadOnly)
+    ∨ (∃ d, n = .hdf d ∧ ¬ Disk.complete d ∧ mapFileMode mode = .ok .rdwr ∧ checkHeader mode d.header = .ok ()) := by
+  by_cases hm : mode = modeOverwrite
+  · exact Or.inl hm
+  · right
+    cases n with
+    | missing =>
+      left
+      refine ⟨rfl, fun hro => ?_⟩
+      subst hro
+      exact hc (C11_readonly_path .missing fid).1
+    | dir t =>
+      obtain ⟨r', hr'⟩ := C11_unopenable_kept mode hm (.dir t) trivial fid
+      rw [hr'] at hc; exact absurd rfl hc
+    | blob t e =>
+      obtain ⟨r', hr'⟩ := C11_unopenable_kept mode hm (.blob t e) trivial fid
+      rw [hr'] at hc; exact absurd rfl hc
+    | hdf d =>
+      right
+      refine ⟨d, rfl, ?_⟩
+      have e := C11_init_shape mode (some d) fid
+      simp only [Node.ofDisk] at e
+      rw [e] at hc
+      simp only [openFile, hm, if_false] at hc
+      cases hmm : mapFileMode mode with
+      | error x => simp [hmm] at hc
+      | ok a =>
+        simp only [hmm] at hc
+        by_cases ht : a = .trunc
+        · simp [ht] at hc
+        · simp only [ht, if_false, checkAndFinish] at hc
+          cases hch : checkHeader mode d.header with
+          | error x => simp [hch] at hc
+          | ok u =>
+            simp only [hch] at hc
+            by_cases hro : a = .rdonly
+            · by_cases hcp : (d.hasData && d.hasMeta && d.hasCreated && d.hasUpdated) = true
+              · simp [finishOpen, hro, hcp] at hc
+              · simp [finishOpen, hro, hcp] at hc
+            · have ha : a = .rdwr := by cases a <;> simp_all
+              subst ha
+              refine ⟨?_, rfl, rfl⟩
+              intro hcomp
+              obtain ⟨h1, h2, h3, h4⟩ := hcomp
+              apply hc
+              obtain ⟨hdr, a1, a2, a3, a4, ct⟩ := d
+              simp only at h1 h2 h3 h4
+              subst h1 h2 h3 h4
+              simp [finishOpen]
 
 /-! ## histories -/
 
